@@ -18,9 +18,30 @@ EXPLANATION = (
 def run(model, rep, tier):
     rep.explanation = EXPLANATION
     A = rep.attempt
+    schema_representation(model)
     A(tables, model, rep)
     A(generic_loader, model, rep)
     A(linreg_loader, model, rep)
+
+
+def schema_representation(model):
+    """every rule of this property reads the parameter tables as {key: {"typ": [..], "opt": .., "def": ..}}; a schema kept in another
+    representation is not something they can judge (an analysis error for the whole property, not a verdict of one rule)"""
+    for kind in KINDS:
+        cdef, tnode = model.class_attr(kind, "_cparams")
+        if tnode is None:
+            continue
+        params = None
+        if isinstance(tnode, ast.Dict):
+            for k, v in zip(tnode.keys, tnode.values):
+                if isinstance(k, ast.Constant) and k.value == "params":
+                    params = v
+        if params is None or not isinstance(params, ast.Dict):
+            raise AnalysisError("%s._cparams: the parameter table is not a literal {'name': .., 'params': {..}}" % kind)
+        for k, v in zip(params.keys, params.values):
+            if not (isinstance(v, ast.Dict) and all(isinstance(kk, ast.Constant) for kk in v.keys)):
+                raise AnalysisError("%s._cparams: the entry of %s is %s, not a {'typ', 'opt', 'def'} table: schema representation not readable" % (
+                    kind, ast.unparse(k), ast.unparse(v)[:50]))
 
 
 def ctor_sig(model, kind):
